@@ -23,6 +23,8 @@ func init() {
 		EnumRule:    "obligations per rule and construct (driver method / switch / parameter)",
 		Assumptions: []string{"pixel-exact rendering, padding bytes and memory safety of the glyph walk in general are not decided", "pitch >= width * bytesPerPixel (quantifier of C19)"},
 		Controls: []Control{
+			{Name: "Write paints through Fill before the range tests", File: "kernel/device/video/console/vesa_fb.go", Old: "func (cons *VesaFbConsole) Write(ch byte, fg, bg uint8, x, y uint32) {\n", New: "func (cons *VesaFbConsole) Write(ch byte, fg, bg uint8, x, y uint32) {\n\tif ch == ' ' && cons.font != nil {\n\t\tcons.Fill(x, y, 1, 1, fg, bg)\n\t\treturn\n\t}\n", Expect: "C19.R1 write-guards"},
+			{Name: "first cell of every row painted whatever the width", File: "kernel/device/video/console/vga_text.go", Old: "\tfor ; height > 0; height, rowOffset = height-1, rowOffset+cons.width {\n", New: "\tfor ; height > 0; height, rowOffset = height-1, rowOffset+cons.width {\n\t\tcons.fb[rowOffset] = clr\n", Expect: "C19.R6 fill-cells"},
 			{Name: "grid width from the pitch", File: "kernel/device/video/console/vesa_fb.go", Old: "\tcons.widthInChars = cons.width / f.GlyphWidth\n", New: "\tcons.widthInChars = cons.pitch / (f.GlyphWidth * cons.bytesPerPixel)\n", Expect: "C19.R6"},
 			{Name: "framebuffer slice rounded up to pages", File: "kernel/device/video/console/vesa_fb.go", Old: "\tfbSize := uintptr(cons.height * cons.pitch)\n", New: "\tfbSize := (uintptr(cons.height*cons.pitch) + mm.PageSize - 1) &^ (mm.PageSize - 1)\n", Expect: "C19.R6"},
 			{Name: "full-width fast path in fill24", File: "kernel/device/video/console/vesa_fb.go", Old: "func (cons *VesaFbConsole) fill24(pX, pY, pW, pH uint32, bg uint8) {\n\tcomp := cons.packColor24(bg)\n\tfbRowOffset := cons.fbOffset(pX, pY)\n", New: "func (cons *VesaFbConsole) fill24(pX, pY, pW, pH uint32, bg uint8) {\n\tcomp := cons.packColor24(bg)\n\tfbRowOffset := cons.fbOffset(pX, pY)\n\tif pW == cons.width {\n\t\tpW, pH = pW*pH, 1\n\t}\n", Expect: "C19.R6"},
